@@ -344,6 +344,8 @@ func (e *Engine) hasherAppend(st *State, recv Val, data Val) {
 		return
 	}
 	n := st.freshConst("hashcat", "Str")
+	reg.declareFun("lib!concat", []string{"Str", "Str"}, "Str")
+	st.assume(eq(n, fmt.Sprintf("(lib!concat %s %s)", cur, d)))
 	la, lb := strLen(cur), strLen(d)
 	st.assume(eq(strLen(n), add(la, lb)))
 	st.assume(fmt.Sprintf("(forall ((i Int)) (! (= (select %s i) (ite (and (<= 0 i) (< i %s)) (select %s i) (ite (and (<= %s i) (< i (+ %s %s))) (select %s (- i %s)) 0))) :pattern ((select %s i))))",
